@@ -87,13 +87,13 @@ func ToUint(i interface{}) (interface{}, error) {
 	case uint8:
 		return uint(val), nil
 	case float64:
-		if val < 0.0 || val > math.MaxUint64 {
+		if !(val >= 0.0 && val < math.MaxUint64+1) {
 			return nil, fmt.Errorf("%w: %T(%v)", ErrUnableToCastToUint, i, i)
 		}
 
 		return uint(val), nil
 	case float32:
-		if val < 0.0 || val > math.MaxUint64 {
+		if !(val >= 0.0 && val < math.MaxUint64+1) {
 			return nil, fmt.Errorf("%w: %T(%v)", ErrUnableToCastToUint, i, i)
 		}
 
@@ -165,13 +165,13 @@ func ToUint64(i interface{}) (interface{}, error) {
 	case uint8:
 		return uint64(val), nil
 	case float64:
-		if val < 0.0 || val > math.MaxUint64 {
+		if !(val >= 0.0 && val < math.MaxUint64+1) {
 			return nil, fmt.Errorf("%w: %T(%v)", ErrUnableToCastToUint64, i, i)
 		}
 
 		return uint64(val), nil
 	case float32:
-		if val < 0.0 || val > math.MaxUint64 {
+		if !(val >= 0.0 && val < math.MaxUint64+1) {
 			return nil, fmt.Errorf("%w: %T(%v)", ErrUnableToCastToUint64, i, i)
 		}
 
@@ -251,13 +251,13 @@ func ToUint32(i interface{}) (interface{}, error) {
 	case uint8:
 		return uint32(val), nil
 	case float64:
-		if val < 0.0 || val > math.MaxUint32 {
+		if !(val >= 0.0 && val < math.MaxUint32+1) {
 			return nil, fmt.Errorf("%w: %T(%v)", ErrUnableToCastToUint32, i, i)
 		}
 
 		return uint32(val), nil
 	case float32:
-		if val < 0.0 || val > math.MaxUint32 {
+		if !(val >= 0.0 && val < math.MaxUint32+1) {
 			return nil, fmt.Errorf("%w: %T(%v)", ErrUnableToCastToUint32, i, i)
 		}
 
@@ -341,13 +341,13 @@ func ToUint16(i interface{}) (interface{}, error) {
 	case uint8:
 		return uint16(val), nil
 	case float64:
-		if val < 0.0 || val > math.MaxUint16 {
+		if !(val >= 0.0 && val < math.MaxUint16+1) {
 			return nil, fmt.Errorf("%w: %T(%v)", ErrUnableToCastToUint16, i, i)
 		}
 
 		return uint16(val), nil
 	case float32:
-		if val < 0.0 || val > math.MaxUint16 {
+		if !(val >= 0.0 && val < math.MaxUint16+1) {
 			return nil, fmt.Errorf("%w: %T(%v)", ErrUnableToCastToUint16, i, i)
 		}
 
@@ -435,13 +435,13 @@ func ToUint8(i interface{}) (interface{}, error) {
 	case uint8:
 		return val, nil
 	case float64:
-		if val < 0.0 || val > math.MaxUint8 {
+		if !(val >= 0.0 && val < math.MaxUint8+1) {
 			return nil, fmt.Errorf("%w: %T(%v)", ErrUnableToCastToUint8, i, i)
 		}
 
 		return uint8(val), nil
 	case float32:
-		if val < 0.0 || val > math.MaxUint8 {
+		if !(val >= 0.0 && val < math.MaxUint8+1) {
 			return nil, fmt.Errorf("%w: %T(%v)", ErrUnableToCastToUint8, i, i)
 		}
 
